@@ -129,7 +129,8 @@ def r1(ctx):
     else:
       seen.add('reuse')
       r = [e for e in ev if e.kind == 'ret']
-      ctx.ob('C16.R1', g, 'an open sink is reused', bool(r) and U(r[-1].node.value) == 'self.next_sink' and not [e for e in ev if e.kind == 'call' and call_attr(e.node) in ('Open', 'Close')],
+      ctx.ob('C16.R1', g, 'an open sink is reused', bool(r) and (U(r[-1].node.value) == 'self.next_sink' or (resolved_text(ev, ev.index(r[-1]), r[-1].node.value) == 'self.next_sink' and not any(
+                 e.kind == 'stmt' and isinstance(e.node, ast.Assign) and any('self.next_sink' in U(t) for t in e.node.targets) for e in ev))) and not [e for e in ev if e.kind == 'call' and call_attr(e.node) in ('Open', 'Close')],
              'reuse branch changed', 'sequential and concurrent requests share the connection')
   ctx.ob('C16.R1', g, 'create / idle / closed / reuse cases all present', seen == {'create', 'idle', 'closed', 'reuse'}, 'cases: %s' % sorted(seen), 'four states of the single sink')
   # other writers of next_sink
